@@ -1,8 +1,10 @@
 #!/bin/bash
-# confirm every delivered seed that has no confirm.json yet (sequential; shared target dir)
-for d in /tmp/seed/C*; do
-  for w in A B; do
-    if [ -f $d/out/$w.meta.json ] && [ ! -f $d/out/$w.confirm.json ]; then
+# confirm every delivered seed that has no confirm.json yet (sequential; shared target dir); usage: confirm_all.sh [/tmp/seed4] [labels...]
+ROOT=${1:-/tmp/seed}; shift
+LABELS=${@:-A B C D E F G H}
+for d in $ROOT/C*; do
+  for w in $LABELS; do
+    if [ -f $d/out/$w.meta.json ] && [ -f $d/out/$w.patch.diff ] && [ ! -f $d/out/$w.confirm.json ]; then
       python3 /verif/tools/confirm_seed.py $d $w
     fi
   done
